@@ -90,7 +90,7 @@ func sceneRespond(o ReqOpts) {
 	fee := s.Fee[0]
 	// ---- settlement
 	if wellFormed {
-		tax := sdk.NewDecFromInt(fee).Mul(k.ServiceFeeTax(ctx)).TruncateInt()
+		tax := sdk.NewDecFromInt(fee).Mul(vf.Params(ctx).ServiceFeeTax).TruncateInt()
 		net := fee.Sub(tax)
 		chk("C02 C01", col1.Sub(s.Collector0).Equal(tax), "tax-is-floor-of-fee-times-rate")
 		chk("C02 C13", earned1.AmountOf(Denom).Sub(s.Earned0[0]).Equal(net), "provider-earns-fee-minus-tax")
